@@ -192,8 +192,8 @@ def str_matches(
     :param pattern: Regular expression pattern to use for matching
     """
     pattern = pattern.pattern if isinstance(pattern, re.Pattern) else pattern
-    if not pattern.startswith("^"):
-        pattern = f"^{pattern}"
+    # anchor the whole pattern: "^a|b" would only anchor the first alternative
+    pattern = f"^(?:{pattern})"
     return data.lazyframe.select(
         pl.col(data.key).str.contains(pattern=pattern)
     )
